@@ -271,3 +271,262 @@ Proof.
   - exact Hb1u.
   - intros (p1 & p0 & E1 & E0 & H1 & H2). simpl in E1, E0. injection E1 as <-. apply Hcw. exists p0. auto.
 Qed.
+
+(* ---------------------------------------------------------------------------------------------- *)
+(* 6. the boolean tests of the code, as the propositions above                                     *)
+
+Lemma olt_rkb v a ix : olt (rkb v a) ix = true <-> exists p, a = Some p /\ rk v p < ix.
+Proof.
+  destruct a as [p|]; simpl.
+  - rewrite Nat.ltb_lt. split; [intros H; exists p; auto|intros (q & E & H); injection E as ->; auto].
+  - split; [discriminate|intros (q & E & _); discriminate].
+Qed.
+
+Lemma check1_b v M1 M2 x :
+  isS (rkb v (nth_error M1 0)) && isS (rkb v (nth_error M2 0))
+  && olt (rkb v (nth_error M1 0)) (rk v x) && olt (rkb v (nth_error M2 0)) (rk v x) = true
+  <-> check1 v M1 M2 x.
+Proof.
+  unfold check1. destruct (nth_error M1 0) as [p1|], (nth_error M2 0) as [p2|]; simpl;
+    try (split; [discriminate|intros (? & ? & E1 & E2 & _); discriminate]).
+  rewrite andb_true_iff, !Nat.ltb_lt. split.
+  - intros [H1 H2]. exists p1, p2. auto.
+  - intros (q1 & q2 & E1 & E2 & H1 & H2). injection E1 as ->. injection E2 as ->. auto.
+Qed.
+
+Lemma cc4_b v M1 M2 x :
+  check_case_4 (rkb v (nth_error M1 1)) (rkb v (nth_error M1 0)) (rkb v (nth_error M2 0)) (rkb v (nth_error M2 1)) (rk v x)
+  = true <-> arm_b v M1 x \/ arm_b v M2 x.
+Proof.
+  unfold check_case_4, arm_b. rewrite orb_true_iff.
+  assert (A : forall M, match rkb v (nth_error M 1), rkb v (nth_error M 0) with
+                        | Some p0, Some p1 => (p0 <? p1) && (rk v x <? p1) | _, _ => false end = true <->
+                        exists p1 p0, nth_error M 0 = Some p1 /\ nth_error M 1 = Some p0 /\
+                                      rk v p0 < rk v p1 /\ rk v x < rk v p1).
+  { intros M. destruct (nth_error M 1) as [q0|], (nth_error M 0) as [q1|]; simpl;
+      try (split; [discriminate|intros (? & ? & ? & ? & _); discriminate]).
+    rewrite andb_true_iff, !Nat.ltb_lt. split.
+    - intros [H1 H2]. exists q1, q0. auto.
+    - intros (p1 & p0 & E1 & E0 & H1 & H2). injection E1 as ->. injection E0 as ->. auto. }
+  rewrite (A M1), (A M2). reflexivity.
+Qed.
+
+Definition c3_failb (bd : bnd) (x : N) (v : list N) : bool :=
+  match bd with
+  | (a0, a1, a2, a3) =>
+    (isS (rkb v a1) && isS (rkb v a2) && olt (rkb v a1) (rk v x) && olt (rkb v a2) (rk v x))
+    || ((isS (rkb v a0) || isS (rkb v a3)) && check_case_4 (rkb v a0) (rkb v a1) (rkb v a2) (rkb v a3) (rk v x))
+  end.
+
+Lemma c3_step_true bd x c d v : fst (fst (c3_step bd x (true, c, d) v)) = true.
+Proof. destruct bd as [[[a0 a1] a2] a3]. reflexivity. Qed.
+
+Lemma c3_fold_true bd x votes st : fst (fst st) = true -> fst (fst (fold_left (c3_step bd x) votes st)) = true.
+Proof.
+  revert st. induction votes as [|v r IH]; intros [[f c] d] H; cbn [fold_left]; [assumption|].
+  cbn [fst] in H. subst f. apply IH. exact (c3_step_true bd x c d v).
+Qed.
+
+Lemma c3_fold_ok bd x votes c0 d0 c d :
+  fold_left (c3_step bd x) votes (false, c0, d0) = (false, c, d) -> forall v, In v votes -> c3_failb bd x v = false.
+Proof.
+  revert c0 d0. induction votes as [|w r IH]; intros c0 d0 E v Hv; [contradiction|]. cbn [fold_left] in E.
+  destruct (c3_failb bd x w) eqn:F.
+  - exfalso. assert (Hs : c3_step bd x (false, c0, d0) w = (true, c0, d0)).
+    { destruct bd as [[[a0 a1] a2] a3]. unfold c3_failb in F. unfold c3_step. cbn iota beta.
+      apply orb_true_iff in F. destruct F as [F|F]; rewrite F; [reflexivity|].
+      destruct (isS (rkb w a1) && isS (rkb w a2) && olt (rkb w a1) (rk w x) && olt (rkb w a2) (rk w x)); reflexivity. }
+    rewrite Hs in E. pose proof (c3_fold_true bd x r (true, c0, d0) eq_refl) as Ht. rewrite E in Ht. discriminate.
+  - destruct Hv as [<-|Hv]; [assumption|].
+    assert (Hs : exists c1 d1, c3_step bd x (false, c0, d0) w = (false, c1, d1)).
+    { destruct bd as [[[a0 a1] a2] a3]. unfold c3_failb in F. unfold c3_step. cbn iota beta.
+      apply orb_false_iff in F. destruct F as [F1 F2]. rewrite F1, F2. eauto. }
+    destruct Hs as (c1 & d1 & Hs). rewrite Hs in E. eapply IH; eauto.
+Qed.
+
+Lemma c3_failb_spec M1 M2 x v : c3_failb (boundary (M1, M2)) x v = false ->
+  ~ check1 v M1 M2 x /\ ~ arm_b v M1 x /\ ~ arm_b v M2 x.
+Proof.
+  unfold boundary, c3_failb. cbn [fst snd]. intros F. apply orb_false_iff in F. destruct F as [F1 F2].
+  split.
+  - intros H. apply check1_b in H. congruence.
+  - assert (Hcc : ~ (arm_b v M1 x \/ arm_b v M2 x)).
+    { intros H. pose proof H as H'. apply cc4_b in H. rewrite H, andb_true_r in F2.
+      apply orb_false_iff in F2. destruct F2 as [G0 G3].
+      destruct H' as [(p1 & p0 & _ & E0 & _)|(p1 & p0 & _ & E0 & _)]; rewrite E0 in *; discriminate. }
+    tauto.
+Qed.
+
+(* what case_3 returns *)
+Lemma case_3_cases A x votes A' ok : case_3 A x votes = (A', ok) ->
+  (A' = A /\ ok = false) \/
+  ((A' = (fst A, x :: snd A) \/ A' = (x :: fst A, snd A)) /\
+   forall v, In v votes -> ~ check1 v (fst A) (snd A) x /\ ~ arm_b v (fst A) x /\ ~ arm_b v (snd A) x).
+Proof.
+  unfold case_3. destruct A as [M1 M2]. cbn [fst snd]. unfold boundary at 1. cbn [fst snd].
+  set (bd := (nth_error M1 1, nth_error M1 0, nth_error M2 0, nth_error M2 1)).
+  destruct (isS (nth_error M1 0) || isS (nth_error M2 0)) eqn:G.
+  - destruct (fold_left (c3_step bd x) votes (false, false, false)) as [[f c] d] eqn:F.
+    destruct f; intros E; injection E as <- <-; [now left|right]. split.
+    + destruct d; auto.
+    + intros v Hv. apply (c3_failb_spec M1 M2 x v). eapply c3_fold_ok; eauto.
+  - intros E. injection E as <- <-. right. split; [auto|]. intros v _.
+    apply orb_false_iff in G. destruct G as [G1 G2].
+    destruct (nth_error M1 0) eqn:E1; [discriminate|]. destruct (nth_error M2 0) eqn:E2; [discriminate|].
+    repeat split.
+    + intros (p1 & ? & H & _). congruence.
+    + intros (p1 & ? & H & _). congruence.
+    + intros (p1 & ? & H & _). congruence.
+Qed.
+
+(* ---- case_2 ---- *)
+Definition c2_failed (st : c2_state) : bool := match st with (f, _, _, _, _) => f end.
+Definition c2_bad (c1 d1 c2 d2 : bool) : bool := (c1 && d1) || (c2 && d2) || (c1 && c2) || (d1 && d2).
+
+Definition c2_failb (bd : bnd) (x1 x2 : N) (v : list N) : bool :=
+  match bd with
+  | (a0, a1, a2, a3) =>
+    (isS (rkb v a1) && isS (rkb v a2)
+     && ((olt (rkb v a1) (rk v x1) && olt (rkb v a2) (rk v x1)) || (olt (rkb v a1) (rk v x2) && olt (rkb v a2) (rk v x2))))
+    || ((isS (rkb v a0) || isS (rkb v a3))
+        && (check_case_4 (rkb v a0) (rkb v a1) (rkb v a2) (rkb v a3) (rk v x1)
+            || check_case_4 (rkb v a0) (rkb v a1) (rkb v a2) (rkb v a3) (rk v x2)))
+  end.
+Definition fc1 (bd : bnd) x1 x2 v := match bd with (_, _, a2, _) => olt (rkb v a2) (rk v x1) && (rk v x2 <? rk v x1) end.
+Definition fc2 (bd : bnd) x1 x2 v := match bd with (_, _, a2, _) => olt (rkb v a2) (rk v x2) && (rk v x1 <? rk v x2) end.
+Definition fd1 (bd : bnd) x1 x2 v := match bd with (_, a1, _, _) => olt (rkb v a1) (rk v x1) && (rk v x2 <? rk v x1) end.
+Definition fd2 (bd : bnd) x1 x2 v := match bd with (_, a1, _, _) => olt (rkb v a1) (rk v x2) && (rk v x1 <? rk v x2) end.
+
+Lemma c2_step_eq bd x1 x2 c1 d1 c2 d2 v :
+  c2_step bd x1 x2 (false, c1, d1, c2, d2) v =
+  if c2_failb bd x1 x2 v then (true, c1, d1, c2, d2)
+  else let c1' := c1 || fc1 bd x1 x2 v in let c2' := c2 || fc2 bd x1 x2 v in
+       let d1' := d1 || fd1 bd x1 x2 v in let d2' := d2 || fd2 bd x1 x2 v in
+       if c2_bad c1' d1' c2' d2' then (true, c1', d1', c2', d2') else (false, c1', d1', c2', d2').
+Proof.
+  destruct bd as [[[a0 a1] a2] a3]. unfold c2_step, c2_failb, fc1, fc2, fd1, fd2, c2_bad. cbn iota beta.
+  destruct (isS (rkb v a1) && isS (rkb v a2) &&
+            (olt (rkb v a1) (rk v x1) && olt (rkb v a2) (rk v x1) || olt (rkb v a1) (rk v x2) && olt (rkb v a2) (rk v x2)));
+    [reflexivity|]. cbn [orb].
+  destruct ((isS (rkb v a0) || isS (rkb v a3)) &&
+            (check_case_4 (rkb v a0) (rkb v a1) (rkb v a2) (rkb v a3) (rk v x1)
+             || check_case_4 (rkb v a0) (rkb v a1) (rkb v a2) (rkb v a3) (rk v x2))); reflexivity.
+Qed.
+
+Lemma c2_step_failed bd x1 x2 st v : c2_failed st = true -> c2_failed (c2_step bd x1 x2 st v) = true.
+Proof.
+  destruct st as [[[[f c1] d1] c2] d2]. cbn [c2_failed]. intros ->. destruct bd as [[[a0 a1] a2] a3]. reflexivity.
+Qed.
+
+Lemma c2_fold_failed bd x1 x2 votes st :
+  c2_failed st = true -> c2_failed (fold_left (c2_step bd x1 x2) votes st) = true.
+Proof.
+  revert st. induction votes as [|v r IH]; intros st H; cbn [fold_left]; [assumption|].
+  apply IH. now apply c2_step_failed.
+Qed.
+
+Lemma c2_fold_ok bd x1 x2 votes c1 d1 c2 d2 C1 D1 C2 D2 :
+  fold_left (c2_step bd x1 x2) votes (false, c1, d1, c2, d2) = (false, C1, D1, C2, D2) ->
+  c2_bad c1 d1 c2 d2 = false ->
+  c2_bad C1 D1 C2 D2 = false /\
+  (forall v, In v votes -> c2_failb bd x1 x2 v = false) /\
+  (c1 = true -> C1 = true) /\ (d1 = true -> D1 = true) /\ (c2 = true -> C2 = true) /\ (d2 = true -> D2 = true) /\
+  (forall v, In v votes -> (fc1 bd x1 x2 v = true -> C1 = true) /\ (fd1 bd x1 x2 v = true -> D1 = true) /\
+                           (fc2 bd x1 x2 v = true -> C2 = true) /\ (fd2 bd x1 x2 v = true -> D2 = true)).
+Proof.
+  revert c1 d1 c2 d2. induction votes as [|w r IH]; intros c1 d1 c2 d2 E Hb.
+  - cbn [fold_left] in E. injection E as <- <- <- <-. repeat split; auto; contradiction.
+  - cbn [fold_left] in E. rewrite c2_step_eq in E. destruct (c2_failb bd x1 x2 w) eqn:F.
+    + exfalso. pose proof (c2_fold_failed bd x1 x2 r (true, c1, d1, c2, d2) eq_refl) as Ht. rewrite E in Ht. discriminate.
+    + cbv zeta in E.
+      destruct (c2_bad (c1 || fc1 bd x1 x2 w) (d1 || fd1 bd x1 x2 w) (c2 || fc2 bd x1 x2 w) (d2 || fd2 bd x1 x2 w)) eqn:B.
+      * exfalso. pose proof (c2_fold_failed bd x1 x2 r (true, c1 || fc1 bd x1 x2 w, d1 || fd1 bd x1 x2 w, c2 || fc2 bd x1 x2 w, d2 || fd2 bd x1 x2 w) eq_refl) as Ht.
+        rewrite E in Ht. discriminate.
+      * destruct (IH _ _ _ _ E B) as (G0 & G1 & G2 & G3 & G4 & G5 & G6).
+        split; [assumption|]. split.
+        { intros v [<-|Hv]; auto. }
+        split; [intros ->; apply G2; reflexivity|]. split; [intros ->; apply G3; reflexivity|].
+        split; [intros ->; apply G4; reflexivity|]. split; [intros ->; apply G5; reflexivity|].
+        intros v [<-|Hv]; [|now apply G6]. repeat split; intros Hf; rewrite Hf, orb_true_r in *; auto.
+Qed.
+
+Lemma c2_failb_spec M1 M2 x1 x2 v : c2_failb (boundary (M1, M2)) x1 x2 v = false ->
+  (~ check1 v M1 M2 x1 /\ ~ arm_b v M1 x1 /\ ~ arm_b v M2 x1) /\
+  (~ check1 v M1 M2 x2 /\ ~ arm_b v M1 x2 /\ ~ arm_b v M2 x2).
+Proof.
+  intros F. split; apply c3_failb_spec; unfold boundary, c2_failb, c3_failb in *; cbn [fst snd] in *;
+    apply orb_false_iff in F; destruct F as [F1 F2]; apply orb_false_iff; split.
+  - destruct (isS (rkb v (nth_error M1 0)) && isS (rkb v (nth_error M2 0))); [|reflexivity]. cbn [andb] in *.
+    apply orb_false_iff in F1. tauto.
+  - destruct (isS (rkb v (nth_error M1 1)) || isS (rkb v (nth_error M2 1))); [|reflexivity]. cbn [andb] in *.
+    apply orb_false_iff in F2. tauto.
+  - destruct (isS (rkb v (nth_error M1 0)) && isS (rkb v (nth_error M2 0))); [|reflexivity]. cbn [andb] in *.
+    apply orb_false_iff in F1. tauto.
+  - destruct (isS (rkb v (nth_error M1 1)) || isS (rkb v (nth_error M2 1))); [|reflexivity]. cbn [andb] in *.
+    apply orb_false_iff in F2. tauto.
+Qed.
+
+(* the two flag conditions that matter for the chosen orientation (u left, w right) *)
+Definition d_flag (v M1 : list N) (u w : N) : Prop :=
+  exists p1, nth_error M1 0 = Some p1 /\ rk v p1 < rk v u /\ rk v w < rk v u.
+Definition c_flag (v M2 : list N) (u w : N) : Prop :=
+  exists p2, nth_error M2 0 = Some p2 /\ rk v p2 < rk v w /\ rk v u < rk v w.
+
+Lemma flag_b v a i j : olt (rkb v a) (rk v i) && (rk v j <? rk v i) = true <->
+  exists p, a = Some p /\ rk v p < rk v i /\ rk v j < rk v i.
+Proof.
+  rewrite andb_true_iff, Nat.ltb_lt, olt_rkb. split.
+  - intros [(p & E & H) H2]. exists p. auto.
+  - intros (p & E & H & H2). split; [exists p; auto|assumption].
+Qed.
+
+Lemma case_2_cases A x1 x2 votes A' ok : case_2 A x1 x2 votes = (A', ok) ->
+  (A' = A /\ ok = false) \/
+  (ok = true /\ exists u w, ((u = x1 /\ w = x2) \/ (u = x2 /\ w = x1)) /\ A' = (u :: fst A, w :: snd A) /\
+   forall v, In v votes ->
+     (~ check1 v (fst A) (snd A) w /\ ~ arm_b v (fst A) w /\ ~ arm_b v (snd A) w) /\ ~ arm_b v (fst A) u /\
+     ~ d_flag v (fst A) u w /\ ~ c_flag v (snd A) u w).
+Proof.
+  unfold case_2. destruct A as [M1 M2]. cbn [fst snd]. unfold boundary at 1. cbn [fst snd].
+  set (bd := (nth_error M1 1, nth_error M1 0, nth_error M2 0, nth_error M2 1)).
+  assert (Hflags : forall C1 D1 C2 D2,
+            c2_bad C1 D1 C2 D2 = false ->
+            (forall v, In v votes -> c2_failb bd x1 x2 v = false) ->
+            (forall v, In v votes -> (fc1 bd x1 x2 v = true -> C1 = true) /\ (fd1 bd x1 x2 v = true -> D1 = true) /\
+                                     (fc2 bd x1 x2 v = true -> C2 = true) /\ (fd2 bd x1 x2 v = true -> D2 = true)) ->
+            exists u w, ((u = x1 /\ w = x2) \/ (u = x2 /\ w = x1)) /\
+              (if C2 || D1 then (x2 :: M1, x1 :: M2) else (x1 :: M1, x2 :: M2)) = (u :: M1, w :: M2) /\
+              forall v, In v votes ->
+                (~ check1 v M1 M2 w /\ ~ arm_b v M1 w /\ ~ arm_b v M2 w) /\ ~ arm_b v M1 u /\
+                ~ d_flag v M1 u w /\ ~ c_flag v M2 u w).
+  { intros C1 D1 C2 D2 Hbad Hfail Hfl. destruct (C2 || D1) eqn:O.
+    - exists x2, x1. split; [auto|]. split; [reflexivity|]. intros v Hv.
+      destruct (c2_failb_spec M1 M2 x1 x2 v (Hfail v Hv)) as [(K1 & K2 & K3) (K4 & K5 & K6)].
+      destruct (Hfl v Hv) as (F1 & F2 & F3 & F4).
+      assert (HD2 : D2 = false /\ C1 = false).
+      { unfold c2_bad in Hbad. destruct C1, D1, C2, D2; simpl in *; try discriminate; auto. }
+      destruct HD2 as [-> ->]. repeat split; auto.
+      + intros Hd. assert (E : fd2 bd x1 x2 v = true) by (unfold fd2, bd; apply flag_b; exact Hd).
+        apply F4 in E. discriminate.
+      + intros Hc. assert (E : fc1 bd x1 x2 v = true) by (unfold fc1, bd; apply flag_b; exact Hc).
+        apply F1 in E. discriminate.
+    - exists x1, x2. split; [auto|]. split; [reflexivity|]. intros v Hv.
+      destruct (c2_failb_spec M1 M2 x1 x2 v (Hfail v Hv)) as [(K1 & K2 & K3) (K4 & K5 & K6)].
+      destruct (Hfl v Hv) as (F1 & F2 & F3 & F4).
+      apply orb_false_iff in O. destruct O as [-> ->]. repeat split; auto.
+      + intros Hd. assert (E : fd1 bd x1 x2 v = true) by (unfold fd1, bd; apply flag_b; exact Hd).
+        apply F2 in E. discriminate.
+      + intros Hc. assert (E : fc2 bd x1 x2 v = true) by (unfold fc2, bd; apply flag_b; exact Hc).
+        apply F3 in E. discriminate. }
+  destruct (isS (nth_error M1 0) || isS (nth_error M2 0)) eqn:G.
+  - destruct (fold_left (c2_step bd x1 x2) votes (false, false, false, false, false)) as [[[[f C1] D1] C2] D2] eqn:F.
+    destruct f; [intros E; injection E as <- <-; now left|].
+    destruct (c2_fold_ok bd x1 x2 votes _ _ _ _ _ _ _ _ F eq_refl) as (G0 & G1 & _ & _ & _ & _ & G6).
+    destruct (Hflags C1 D1 C2 D2 G0 G1 G6) as (u & w & Huw & EA & Hall).
+    intros E. right. destruct (C2 || D1); injection E as <- <-; (split; [reflexivity|]); exists u, w; auto.
+  - apply orb_false_iff in G. destruct G as [G1 G2].
+    destruct (nth_error M1 0) eqn:E1; [discriminate|]. destruct (nth_error M2 0) eqn:E2; [discriminate|].
+    intros E. cbn [orb] in E. injection E as <- <-. right. split; [reflexivity|]. exists x1, x2.
+    split; [auto|]. split; [reflexivity|]. intros v _.
+    repeat split; intros (p & ? & H & _); congruence.
+Qed.
